@@ -20,3 +20,4 @@ import Brax.Lemmas.ScanSpec
 import Brax.Lemmas.KinEquiv
 import Brax.Props.C19
 import Brax.Props.C05
+import Brax.Props.C13
